@@ -296,6 +296,27 @@ void body(const Json& prog) {
         base += 100;
     }
     for (auto& t : ts) t.join();
+    if (prog.get("stale_epilogue", 0)) {
+        // Sequential, on a key no generated pattern can match (depth 4): an observer that invalidates itself is removed lazily by
+        // the notify that follows; its handle is then stale and unsubscribe() reports that with std::invalid_argument.  Whatever
+        // the call does, the router must remain usable afterwards (the probes below would hang on a leaked lock).
+        using SelfView = tulz::Observer<>::SelfView;
+        RoutingKey zk = RoutingKeyBuilder{}.level("z").level("q").level("r").level("s").build();
+        int hits = 0;
+        USubscription h = w.router->subscribe(zk, [&hits](SelfView self) { hits++; self->invalidate(); });
+        size_t n1 = w.router->notify(zk);
+        size_t n2 = w.router->notify(zk);
+        (void)n1; (void)n2;
+        if (hits != 1) sim::violation("delivered-twice", "a self-invalidating observer was invoked " + std::to_string(hits) + " times by two notifies");
+        try {
+            h->unsubscribe();
+        } catch (const std::invalid_argument&) {
+            sim::Untracked u;
+            g_extra["stale_unsubscribe_rejected"]++;
+        }
+        (void)w.router->exists(zk);
+        g_extra["stale_epilogues"]++;
+    }
     // final probe from the controller: what is still subscribed is exactly what the model says
     do_op(Json::object().set("op", "notify").set("pat", Json::array().push(Json::array())), 9001);
     do_op(Json::object().set("op", "notify").set("pat", Json::array().push(Json::array()).push(Json::array())), 9002);
@@ -581,6 +602,7 @@ void generate(sim::Rng& g, const std::string& prop, const std::string& tier, Jso
             }
         program.set("shared", shared);
     }
+    program.set("stale_epilogue", (int)(prop != "C15" && g.below(4) == 0));
     program.set("nobs", nobs).set("cb_yields", g.range(0, 3)).set("init", init).set("threads", threads);
     drv::draw_sched(g, cfg, true, 40 + 30 * total);
     cfg.step_cap = 30000;
@@ -615,7 +637,7 @@ std::string describe(const Json& p) {
         s += " | T" + std::to_string(t + 1) + ":";
         for (auto& op : th[t].a) s += " " + one(op);
     }
-    return s + " (cb_yields=" + std::to_string(p.get("cb_yields", 0)) + ")";
+    return s + " (cb_yields=" + std::to_string(p.get("cb_yields", 0)) + (p.get("stale_epilogue", 0) ? ", stale-handle epilogue" : "") + ")";
 }
 
 std::vector<Json> shrink(const Json& p) {
@@ -655,6 +677,7 @@ std::vector<Json> shrink(const Json& p) {
         if (!uses_obs(c, (int)op.at("obs").num())) out.push_back(c);
     }
     if (p.get("cb_yields", 0) > 0) { Json c = p; c.set("cb_yields", p.get("cb_yields", 0) - 1); out.push_back(c); }
+    if (p.get("stale_epilogue", 0)) { Json c = p; c.set("stale_epilogue", 0); out.push_back(c); }
     for (size_t t = 0; t < th.size(); t++)
         for (size_t i = 0; i < th[t].size(); i++)
             if (th[t][i].get("via_ctrl", 0)) { Json c = p; c.at("threads")[t][i].set("via_ctrl", 0); out.push_back(c); }
